@@ -39,13 +39,13 @@ for _c, _k in _why.items():
 PROPS["C16"] = dict(
     driver="params",
     props_file="Props/C16.v",
-    coq_targets=["Params/Check.vo", "Params/Proofs.vo", "Params/Sound.vo"],
+    coq_targets=["Params/Check.vo", "Params/Proofs.vo", "Params/Sound.vo", "Params/Pinned.vo"],
     check_module="Params.Check",
     check_fn="check_case",
     translators=[dict(driver="params", args=["defaults"], out="Gen/ParamsDefaults.v")],
-    streams=[dict(name="coinswap", quick=90, thorough=2500), dict(name="farm", quick=80, thorough=2000),
-             dict(name="htlc", quick=90, thorough=2500), dict(name="service", quick=90, thorough=2500),
-             dict(name="token", quick=80, thorough=2000)],
+    streams=[dict(name="coinswap", quick=80, thorough=2500), dict(name="farm", quick=70, thorough=2000),
+             dict(name="htlc", quick=85, thorough=2500), dict(name="service", quick=85, thorough=2500),
+             dict(name="token", quick=75, thorough=2000)],
     rule="the first 26..59 cases of each stream are a deterministic boundary sweep (the default set with one field set to each value of a "
          "fixed table: 0, 10^-18, 1-10^-18, 1, 1+10^-18, 2, -1, absent, 2^300, -2^200 for rates; 0, 1, -1, absent, 2^256-1, 2^255, 2^254 for amounts; "
          "invalid denoms; lock / timeout / multiple extremes), sent by the authority or through genesis and followed by one instance of every "
@@ -58,6 +58,8 @@ PROPS["C16"] = dict(
     codes=_codes,
     explain=_explain,
     trusted_base=["the denom / address / beacon classes of the model's vocabulary stand for the fixed strings listed in harness/cmd/params/main.go",
+                  "the EVM behind the token keeper is the harness's mock (deploy with a beacon, mint and burn within balances succeed); no exchange-rate feed is registered for the service module",
+                  "coq/Params/Pinned.v (validators of the pinned commit, used only by the *_refuted_at_pinned_commit witnesses) was tied to the code by the runs of rounds 1-2, not by this run",
                   "256-bit overflow of sdkmath.Int arithmetic on operation inputs is outside the model except where a parameter is a factor "
                   "(service price * multiple, htlc fixed fee + minimum): inputs are otherwise kept below 2^100"],
     assumptions=["operation inputs (amounts, reserves, balances) are below 2^100 (service bind price: up to 2^200); parameter values range over the whole encodable domain"],
